@@ -57,6 +57,19 @@ func zzSelfByte(buf []byte) byte {
 //@   ensures res == 3                          -- false: 2
 //@   modifies elems(buf)
 
+func zzCexCallee(x int) int { return x + 1 }
+
+//@ contract zzCexCallee
+//@   ensures res > x
+//@   modifies nothing
+
+func zzCexCaller(x int) int { return zzCexCallee(x) }
+
+//@ contract zzCexCaller
+//@   requires x < 1000 && x > -1000
+//@   ensures res == x + 1                      -- true of the code but not derivable from the callee's contract: the solver's model must NOT replay
+//@   modifies nothing
+
 type zzP struct {
 	n  int
 	xs []uint16
@@ -359,6 +372,14 @@ FIX_COMMITS = [
 ]
 
 
+# counterexample replay: (name, file, old, new, key, must_confirm)
+CEX = [
+ ('cex-headerSize', 'roaringarray.go', 'if size < noOffsetThreshold { // for small', 'if size <= noOffsetThreshold { // for small', 'roaring.roaringArray.headerSize', True),
+ ('cex-ReadUInt16-bounds', 'internal/byte_input.go', 'if len(b.buf)-b.off < 2 {', 'if len(b.buf)-b.off < 1 {', 'internal.ByteBuffer.ReadUInt16', True),
+ ('cex-binarySearch-result', 'setutil.go', 'return -(low + 1)', 'return -low', 'roaring.binarySearch', True),
+]
+
+
 def run(cmd, **kw):
     return subprocess.run(cmd, shell=True, stdout=subprocess.PIPE, stderr=subprocess.STDOUT, text=True, **kw).stdout
 
@@ -396,6 +417,27 @@ def main():
                 print(('proved   ' if ok else 'NOT PROVED ') + 'engine:' + k + ' (true contract, must verify)')
                 bad += 0 if ok else 1
             os.remove(os.path.join(d, 'zz_selftest_verif.go'))
+        if not flt or 'cex' in flt:
+            # a model that the real code does not follow must not be reported as a failing input
+            open(os.path.join(d, 'zz_selftest_verif.go'), 'w').write(ENGINE)
+            out = run(f'{RVC} verify -repo {d} -x -f roaring.zzCexCaller -t 10 -cex')
+            ok = 'sat ' in out and 'replay: confirmed=false' in out and 'confirmed=true' not in out
+            print(('ok       ' if ok else 'WRONG    ') + 'cex: a model using a weak callee contract is not confirmed by the real code')
+            bad += 0 if ok else 1
+            os.remove(os.path.join(d, 'zz_selftest_verif.go'))
+            for name, f, old, new, key, must in CEX:
+                fp = os.path.join(d, f)
+                src = open(fp).read()
+                if old not in src:
+                    print('STALE    ' + name)
+                    bad += 1
+                    continue
+                open(fp, 'w').write(src.replace(old, new, 1))
+                out = run(f'{RVC} verify -repo {d} -x -f {key} -t 10 -cex')
+                ok = ('replay: confirmed=true' in out) == must
+                print(('ok       ' if ok else 'WRONG    ') + name + ': counterexample replayed on the real code and confirmed')
+                bad += 0 if ok else 1
+                shutil.copy(os.path.join(REPO, f), fp)
         for m in MUTANTS:
             if flt and flt not in m['name']:
                 continue
